@@ -415,6 +415,8 @@ impl<'a> BlobRef<'a> {
                             backtrack_data_idx += 1;
                             data_idx = backtrack_data_idx;
                             pattern_idx = backtrack_pattern_idx;
+                            // the pending escape belongs to the pattern position we are leaving
+                            in_escape = false;
                             continue;
                         }
                         return false;
@@ -468,11 +470,9 @@ impl<'a> BlobRef<'a> {
                 data_idx = backtrack_data_idx;
                 pattern_idx = backtrack_pattern_idx;
             } else {
-                // Pattern exhausted but data remains (only OK if trailing %)
-                // Check if pattern ends with %
-                if pattern.last() == Some(&b'%') {
-                    return true;
-                }
+                // Pattern exhausted, data remains and there is no unescaped % to go back to
+                // (an unescaped % would have set the backtrack point; a trailing `\%` is a literal
+                // percent sign, not a wildcard).
                 return false;
             }
         }
